@@ -57,7 +57,7 @@ Section BQ.
     apply (no_stuck_signal _ _ _ bq_body bq_blocker bq_body_block bq_blocker_unique notEmpty
              (@length Z) (fun _ => True)) with (s0 := []) (progs := progs) (t := t) (th := th); auto.
     - intros o q _ Hb. destruct o; cbn in Hb; try discriminate. destruct q; [reflexivity|discriminate].
-    - intros o q q' r sg _ Hb. right. destruct o as [v| | |]; cbn in Hb.
+    - intros o q q' r sg _ Hb. right; right. destruct o as [v| | |]; cbn in Hb.
       + inversion Hb; subst. cbn. rewrite app_length. cbn. lia.
       + destruct q; inversion Hb; subst. cbn. lia.
       + inversion Hb; subst. cbn. lia.
@@ -73,7 +73,7 @@ Section BQ.
     destruct (disc_reach _ _ _ bq_body bq_blocker bq_body_block bq_blocker_unique notEmpty
                 (@length Z) (fun _ => True)) with (s0 := @nil Z) (progs := progs) (s := s) as (_ & J & _); auto.
     - intros o q _ Hb. destruct o; cbn in Hb; try discriminate. destruct q; [reflexivity|discriminate].
-    - intros o q q' r sg _ Hb. right. destruct o as [v| | |]; cbn in Hb.
+    - intros o q q' r sg _ Hb. right; right. destruct o as [v| | |]; cbn in Hb.
       + inversion Hb; subst. cbn. rewrite app_length. cbn. lia.
       + destruct q; inversion Hb; subst. cbn. lia.
       + inversion Hb; subst. cbn. lia.
@@ -163,7 +163,7 @@ Section BBQ.
     - intros o q _ Hb. destruct o; cbn in Hb; try discriminate.
       + destruct (Nat.eqb (length q) cap); discriminate.
       + destruct q; [reflexivity|discriminate].
-    - intros o q q' r sg _ Hb. right. destruct o as [v| | | | |]; cbn in Hb.
+    - intros o q q' r sg _ Hb. right; right. destruct o as [v| | | | |]; cbn in Hb.
       + destruct (Nat.eqb (length q) cap); inversion Hb; subst. cbn. rewrite app_length. cbn. lia.
       + destruct q; inversion Hb; subst. cbn. lia.
       + inversion Hb; subst. cbn. lia.
@@ -186,7 +186,7 @@ Section BBQ.
     - intros o q _ Hb. destruct o; cbn in Hb; try discriminate.
       + destruct (Nat.eqb (length q) cap) eqn:E; [|discriminate]. apply Nat.eqb_eq in E. lia.
       + destruct q; [|discriminate]. inversion Hb.
-    - unfold bounded. intros o q q' r sg B Hb. right. destruct o as [v| | | | |]; cbn in Hb.
+    - unfold bounded. intros o q q' r sg B Hb. right; right. destruct o as [v| | | | |]; cbn in Hb.
       + destruct (Nat.eqb (length q) cap) eqn:E; inversion Hb; subst. apply Nat.eqb_neq in E.
         cbn. rewrite app_length. cbn. lia.
       + destruct q; inversion Hb; subst. cbn in *. lia.
@@ -316,6 +316,47 @@ Proof.
   - intros f. rewrite filter_app. eauto.
 Qed.
 
+(* per-producer order with the producer read off the history (not off the values) *)
+Lemma tagged_prefix : forall (tagged : list (nat * Z)) (rs q : list Z),
+  map snd tagged = rs ++ q ->
+  map snd (firstn (length rs) tagged) = rs /\
+  forall p, exists rest, filter (put_by p) tagged = filter (put_by p) (firstn (length rs) tagged) ++ rest.
+Proof.
+  intros tagged rs q H. split.
+  - rewrite <- firstn_map, H. rewrite firstn_app, Nat.sub_diag, firstn_all. cbn. apply app_nil_r.
+  - intros p. exists (filter (put_by p) (skipn (length rs) tagged)).
+    rewrite <- filter_app, firstn_skipn. reflexivity.
+Qed.
+
+Lemma bq_tag : forall h, map snd (bq_puts_by h) = bq_puts h.
+Proof.
+  induction h as [|[[t o] r] h IH]; auto. unfold bq_puts_by, bq_puts in *. cbn [flat_map].
+  rewrite map_app, IH. destruct o; reflexivity.
+Qed.
+
+Lemma bbq_tag : forall h, map snd (bbq_puts_by h) = bbq_puts h.
+Proof.
+  induction h as [|[[t o] r] h IH]; auto. unfold bbq_puts_by, bbq_puts in *. cbn [flat_map].
+  rewrite map_app, IH. destruct o; reflexivity.
+Qed.
+
+Theorem per_producer_order :
+  (forall progs s, reach bq_body (init_sys [] progs) s ->
+     let tagged := bq_puts_by (hist s) in let n := length (rets (hist s)) in
+     map snd tagged = bq_puts (hist s) /\ map snd (firstn n tagged) = rets (hist s) /\
+     forall p, exists rest, filter (put_by p) tagged = filter (put_by p) (firstn n tagged) ++ rest) /\
+  (forall cap progs s, reach (bbq_body cap) (init_sys [] progs) s ->
+     let tagged := bbq_puts_by (hist s) in let n := length (rets (hist s)) in
+     map snd tagged = bbq_puts (hist s) /\ map snd (firstn n tagged) = rets (hist s) /\
+     forall p, exists rest, filter (put_by p) tagged = filter (put_by p) (firstn n tagged) ++ rest).
+Proof.
+  split.
+  - intros progs s Hr. cbv zeta. split; [apply bq_tag|]. eapply tagged_prefix.
+    rewrite bq_tag. apply (bq_nothing_lost progs s Hr).
+  - intros cap progs s Hr. cbv zeta. split; [apply bbq_tag|]. eapply tagged_prefix.
+    rewrite bbq_tag. apply (bbq_nothing_lost cap progs s Hr).
+Qed.
+
 Definition fifo_statement (puts rs : list Z) : Prop :=
   (exists rest, puts = rs ++ rest) /\
   (forall k v, nth_error rs k = Some v -> nth_error puts k = Some v) /\
@@ -380,3 +421,21 @@ Proof.
       destruct (Forall_nth_error _ _ _ _ J Hn c Hc) as (o & rest & Hp & Hb).
       destruct o; cbn in Hb; try discriminate. apply Nat.eqb_eq in Hb. congruence.
 Qed.
+
+(* ================================================================ quiescence is reached (all three) *)
+Section Termination.
+  Variables S op res : Type.
+  Variable body : op -> S -> outcome S res.
+
+  Theorem quiescence_reached : forall s0 progs (s : sys S op res), reach body (init_sys s0 progs) s ->
+    (forall ls s', run body s ls = Some s' -> measure s' + nonspur ls <= measure s + 2 * nspur ls) /\
+    (forall ls s', run body s ls = Some s' -> nspur ls = 0 -> length ls <= measure s) /\
+    (exists ls s', run body s ls = Some s' /\ nspur ls = 0 /\ reach body (init_sys s0 progs) s' /\ quiescent body s').
+  Proof.
+    intros s0 progs s Hr. split; [|split].
+    - intros ls s' H. eapply run_bound; eauto.
+    - intros ls s' H Hsp. eapply spurious_free_runs_are_finite; eauto.
+    - destruct (reaches_quiescence _ _ _ body s) as (ls & s' & Hrun & Hsp & Hq).
+      exists ls, s'. repeat split; auto. eapply reach_run; eauto.
+  Qed.
+End Termination.
